@@ -21,15 +21,27 @@ func verifTime(name string) (time.Time, int64) {
 func verifGroups(n int) ([]ShardGroupInfo, []int64, []int64) {
 	gs := make([]ShardGroupInfo, n)
 	ss, es := make([]int64, n), make([]int64, n)
+	deleted := make([]bool, n)
 	for i := 0; i < n; i++ {
 		var st, en time.Time
 		st, ss[i] = verifTime(vrt.N("g_start", i))
 		en, es[i] = verifTime(vrt.N("g_end", i))
 		vrt.Assume(ss[i] < es[i])
+		// a group may be deleted and not yet pruned: it keeps its place in the list (sorted by end, then
+		// start) but takes no part in the disjointness of live groups (it may stem from another duration)
+		deleted[i] = vrt.Bound("DELETED", 0) == 1 && vrt.Choose(vrt.N("g_deleted", i), 0, 1) == 1
 		if i > 0 {
-			vrt.Assume(es[i-1] <= ss[i])
+			vrt.Assume(vrt.Or(es[i-1] < es[i], vrt.And(es[i-1] == es[i], ss[i-1] <= ss[i])))
+		}
+		for j := 0; j < i; j++ {
+			if !deleted[i] && !deleted[j] {
+				vrt.Assume(es[j] <= ss[i])
+			}
 		}
 		gs[i] = ShardGroupInfo{ID: uint64(i + 1), StartTime: st, EndTime: en, Shards: []ShardInfo{{ID: uint64(i + 1)}}}
+		if deleted[i] {
+			gs[i].DeletedAt = time.Unix(1000000000, 0).UTC()
+		}
 	}
 	return gs, ss, es
 }
@@ -52,6 +64,7 @@ func VerifC18_CreateShardGroup() {
 		return
 	}
 	vrt.Assert(g.Contains(ts), "lookup: the group's [start,end) contains the timestamp")
+	vrt.Assert(!g.Deleted(), "lookup: the group found for a write is live")
 	_ = t
 	// persisted and reloaded, the group keeps its bounds: it still contains the timestamp and
 	// compares equal bound by bound
@@ -64,6 +77,9 @@ func VerifC18_CreateShardGroup() {
 	for i := range all {
 		vrt.Assert(all[i].StartTime.Before(all[i].EndTime), "layout: start < end")
 		for j := i + 1; j < len(all); j++ {
+			if all[i].Deleted() || all[j].Deleted() {
+				continue
+			}
 			// [si,ei) and [sj,ej) disjoint
 			vrt.Assert(vrt.Or(!all[i].EndTime.After(all[j].StartTime), !all[j].EndTime.After(all[i].StartTime)), "layout: live groups never overlap")
 		}
